@@ -79,6 +79,12 @@ func validCfg(kind string) map[string]string {
 	if kind == "B" {
 		level = "INFO"
 	}
+	if kind == "B" {
+		// the configured root is asynchronous too (it is stopped once, like every other logger)
+		m["appender.rroot.type"] = "Rec"
+		m["logger.root.type"], m["logger.root.appenderRef.ref"] = "AsyncLogger", "rroot"
+		m["logger.root.bufferFullPolicy"], m["logger.root.bufferSize"] = "Block", "100"
+	}
 	set("lt", "_c16_*", level, "rtag")
 	for _, h := range handlePool {
 		if h != "root" { // the valid configurations configure no root logger
@@ -101,7 +107,14 @@ func invalidEarly(v int) map[string]string {
 
 func invalidLate(v int) map[string]string {
 	m := validCfg("B")
-	switch v % 3 {
+	switch v % 5 {
+	case 3:
+		// a rolling-file logger in asynchronous mode whose directory does not exist: its own Start fails
+		m["logger.zroll.type"], m["logger.zroll.tags"], m["logger.zroll.fileDir"], m["logger.zroll.fileName"] = "RollingFile", "_c16z_a", "/nonexistent/c16/dir", "z.log"
+		m["logger.zroll.async"], m["logger.zroll.rotation"] = "true", "h"
+	case 4:
+		// a file appender whose directory does not exist: an I/O failure while starting
+		m["appender.zfile.type"], m["appender.zfile.fileDir"], m["appender.zfile.fileName"] = "File", "/nonexistent/c16/dir", "z.log"
 	case 0:
 		m["logger.lt.bufferSize"] = "10" // async logger refuses to start
 	case 1:
@@ -443,7 +456,7 @@ func TestC16_Generated(t *testing.T) {
 		}
 		var ops []op
 		for i := 0; i < n; i++ {
-			ops = append(ops, op{K: rapid.SampledFrom(opNames).Draw(t, "op"), Level: rapid.IntRange(0, len(lvls)-1).Draw(t, "lvl"), Var: rapid.IntRange(0, 2).Draw(t, "var")})
+			ops = append(ops, op{K: rapid.SampledFrom(opNames).Draw(t, "op"), Level: rapid.IntRange(0, len(lvls)-1).Draw(t, "lvl"), Var: rapid.IntRange(0, 4).Draw(t, "var")})
 		}
 		vk.Eval()
 		if nonTrivial(ops) {
@@ -485,7 +498,7 @@ func TestC16_Exhaustive(t *testing.T) {
 			var ops []op
 			c := code
 			for i := 0; i < n; i++ {
-				ops = append(ops, op{K: opNames[c%k], Level: (code + i) % len(lvls), Var: (code / 7) % 3})
+				ops = append(ops, op{K: opNames[c%k], Level: (code + i) % len(lvls), Var: (code / 7) % 5})
 				c /= k
 			}
 			total++
